@@ -3,8 +3,8 @@
     The whole-history statement (fsck of the closed image is empty after any op list) is NOT proved:
     it is C04_history below, kept as a comment; the layer theorems are what it is built from, and the
     history level is tied to the implementation byte for byte and judged by the independent fsck. *)
-From Coq Require Import ZArith List Bool Sorted Lia.
-From PyFatV Require Import Base.Bytes Base.PyEnv Gen.Pure Model.Codec Model.Dir Model.FS Proofs.FatTable Proofs.FatCodec Proofs.Ownership Proofs.Device Proofs.DirCodec Proofs.DirState Proofs.Chains.
+From Coq Require Import ZArith List Bool Sorted Lia Relations.
+From PyFatV Require Import Base.Bytes Base.PyEnv Gen.Pure Model.Codec Model.Dir Model.FS Proofs.FatTable Proofs.FatCodec Proofs.Ownership Proofs.Device Proofs.DirCodec Proofs.DirState Proofs.Chains Proofs.FatBound.
 Import ListNotations.
 Open Scope Z_scope.
 
@@ -116,3 +116,15 @@ Example C04_extend_example :
   chain_go 9 12 [4088; 4095; 3; 4095; 0; 4095; 0; 0; 0] 2 = ([2; 3], true) /\
   chain_go 9 12 (updZ (link_chain [4088; 4095; 3; 4095; 0; 4095; 0; 0; 0] [4; 6] 4095) 3 4) 2 = ([2; 3; 4; 6], true).
 Proof. vm_compute. split; reflexivity. Qed.
+
+(** an invariant by induction over operations: every link stored in the FAT points at a cluster the volume really has
+    ([fb]); every operation of the model preserves it (allocation links only clusters <= max_cluster, freeing writes 0,
+    truncation writes an end mark, the dirty marks touch FAT[1] only), hence after ANY history every chain that starts
+    inside the data area stays inside it — whatever the sector-rounded FAT could address beyond the last cluster *)
+Theorem C04_links_bounded_step : forall s s', mstep s s' -> s_h s' = s_h s /\ s_p s' = s_p s /\ (fb s -> fb s').
+Proof. exact mstep_K. Qed.
+Print Assumptions C04_links_bounded_step.
+Theorem C04_chains_stay_inside : forall s s' c, fb s -> clos_refl_trans st mstep s s' -> 2 <= c <= max_cluster s ->
+  Forall (fun x => 2 <= x <= max_cluster s) (fst (chain s' c)).
+Proof. exact history_chains_inside. Qed.
+Print Assumptions C04_chains_stay_inside.
